@@ -102,6 +102,9 @@ func allDone(dones []<-chan struct{}) bool {
 	return true
 }
 
+// Stacks returns a dump of all goroutines.
+func Stacks() string { return allStacks() }
+
 func allStacks() string {
 	n := 1 << 20
 	for {
